@@ -81,6 +81,7 @@ func init() {
 	for _, n := range []string{"SkipN", "Next"} {
 		fnSpecs = append(fnSpecs, fnSpec{"protocol/thrift", "SkipDecoder", n, "SD_" + n})
 	}
+	fnSpecs = append(fnSpecs, fnSpec{"protocol/ttheader", "", "Decode", "tth_Decode"})
 	fnSpecs = append(fnSpecs, fnSpec{"protocol/thrift/base", "BaseResp", "FastRead", "BaseResp_FastRead"})
 	fnSpecs = append(fnSpecs, fnSpec{"protocol/thrift/base", "Base", "FastRead", "Base_FastRead"})
 	for _, n := range []string{"appendUint32", "appendUint64"} {
@@ -108,7 +109,25 @@ const (
 	tUnit  // a value of a stateless struct type (thrift.BinaryProtocol{})
 )
 
+// struct value types get dynamic lty numbers (>= 100); the registry maps them to the generated structure
+var structLty = map[string]lty{}
+var structLtyName = map[lty]string{}
+var structLtyType = map[lty]*types.Named{}
+
+func structLtyOf(n *types.Named) lty {
+	name := structLeanName(n)
+	if id, ok := structLty[name]; ok {
+		return id
+	}
+	id := lty(100 + len(structLty))
+	structLty[name], structLtyName[id], structLtyType[id] = id, name, n
+	return id
+}
+
 func (t lty) String() string {
+	if n, ok := structLtyName[t]; ok {
+		return n
+	}
 	switch t {
 	case tInt:
 		return "Int"
@@ -129,6 +148,9 @@ func (t lty) String() string {
 }
 
 func (t lty) zero() string {
+	if n, ok := structLtyName[t]; ok {
+		return "({} : " + n + ")"
+	}
 	switch t {
 	case tInt:
 		return "0"
@@ -154,6 +176,13 @@ func leanType(t types.Type) lty {
 	}
 	if n, ok := t.(*types.Named); ok && n.Obj().Pkg() == nil && n.Obj().Name() == "error" {
 		return tErr
+	}
+	if n, ok := t.(*types.Named); ok {
+		if st, ok := n.Underlying().(*types.Struct); ok && st.NumFields() > 0 {
+			if _, _, ok := structOf(n); ok {
+				return structLtyOf(n)
+			}
+		}
 	}
 	switch u := t.Underlying().(type) {
 	case *types.Basic:
@@ -331,6 +360,7 @@ type fnInfo struct {
 	deps     []*fnInfo
 	recv     *types.Var // a struct receiver the body uses (nil: no receiver, or a stateless one)
 	recvMut  bool       // the body assigns to its fields: the receiver is returned as the first result
+	ifaceParam bool     // the abstract reader is a bufiox.Reader PARAMETER (kept in `recv`), not a receiver
 	ifaceFld string     // mixed receiver: the name of its bufiox.Reader field ("" = the receiver itself is the reader state)
 	iface    bool       // the receiver wraps a bufiox.Reader interface value: the receiver IS the abstract reader state ρ,
 	//                     and the function takes `{ρ : Type} (I : ReaderI ρ)` (the behaviour of the interface's methods)
@@ -364,6 +394,7 @@ type fctx struct {
 	named   []types.Object // named results
 	globals map[string]bool
 	deps    map[*fnInfo]bool
+	ftVar   string   // Lean name of the variable of the last fieldTarget
 	loop    *loopCtx // innermost enclosing loop (nil at function level)
 	fuel    bool
 	inSw    int // depth of enclosing switch statements inside the innermost loop
@@ -565,6 +596,9 @@ func (f *fctx) tyOf(o types.Object) string {
 	if _, ok := ifaceRecv(o.Type()); ok {
 		return "ρ"
 	}
+	if f.fi.ifaceParam && types.Object(f.fi.recv) == o {
+		return "ρ"
+	}
 	if n, _, _, ok := mixedRecv(o.Type()); ok {
 		f.t.structs[structLeanName(n)] = n
 		return "(" + structLeanName(n) + " ρ)"
@@ -588,6 +622,12 @@ func (f *fctx) paramTypes() []string {
 	}
 	for i := 0; i < sig.Params().Len(); i++ {
 		p := sig.Params().At(i)
+		if f.fi.ifaceParam && types.Object(p) == types.Object(f.fi.recv) {
+			continue
+		}
+		if _, known := f.names[p]; !known {
+			continue
+		}
 		ts = append(ts, f.tyOf(p))
 		if f.hasOff(p) {
 			ts = append(ts, "Int")
@@ -1144,27 +1184,48 @@ func (f *fctx) bind(b *blk, o types.Object, val string) {
 	b.add("let " + f.nameOf(o) + " := " + val)
 }
 
-// fieldTarget: `p.F` with p the struct receiver: the field name
+// isStructVar: the receiver (struct or mixed), or a local / named result whose type is a supported struct
+func (f *fctx) isStructVar(o *types.Var) bool {
+	if f.fi.recv != nil && types.Object(o) == types.Object(f.fi.recv) {
+		if _, isIface := ifaceRecv(o.Type()); !isIface {
+			return true
+		}
+		return false
+	}
+	if _, known := f.names[o]; !known {
+		return false
+	}
+	_, isStruct := structLtyName[leanType(o.Type())]
+	return isStruct
+}
+
+// fieldTarget: `x.F` with x the struct receiver or a struct-typed variable: the variable's Lean name is returned through
+// f.ftVar (set as a side effect), the field name and type as results
 func (f *fctx) fieldTarget(e ast.Expr) (string, types.Type, bool) {
 	sel, ok := stripParens(e).(*ast.SelectorExpr)
-	if !ok || f.fi.recv == nil {
+	if !ok {
 		return "", nil, false
 	}
 	id, ok := stripParens(sel.X).(*ast.Ident)
-	if !ok || f.pk.TypesInfo.Uses[id] != types.Object(f.fi.recv) {
+	if !ok {
+		return "", nil, false
+	}
+	o, ok := f.pk.TypesInfo.Uses[id].(*types.Var)
+	if !ok || !f.isStructVar(o) {
 		return "", nil, false
 	}
 	s, ok := f.pk.TypesInfo.Selections[sel]
 	if !ok || s.Kind() != types.FieldVal {
 		return "", nil, false
 	}
+	f.ftVar = f.nameOf(o)
 	return sel.Sel.Name, s.Obj().Type(), true
 }
 
 // bindTarget: assignment of val to an identifier, `*p`, or a receiver field
 func (f *fctx) bindTarget(b *blk, at ast.Node, l ast.Expr, val string) {
 	if fld, _, ok := f.fieldTarget(l); ok {
-		n := f.nameOf(f.fi.recv)
+		n := f.ftVar
 		b.add(fmt.Sprintf("let %s := { %s with %s := %s }", n, n, fld, val))
 		return
 	}
@@ -1380,9 +1441,9 @@ func (f *fctx) viewOf(b *blk, e ast.Expr) (types.Object, string, bool) {
 func (f *fctx) store(b *blk, ix *ast.IndexExpr, rhs ast.Expr) {
 	if fld, ft, ok := f.fieldTarget(ix.X); ok && isMap(ft) {
 		mt := ft.Underlying().(*types.Map)
+		n := f.ftVar
 		k := f.exprAs(b, ix.Index, mt.Key())
 		v := f.exprAs(b, rhs, mt.Elem())
-		n := f.nameOf(f.fi.recv)
 		t := f.fresh()
 		b.add(fmt.Sprintf("let %s ← mapSet %s.%s %s %s", t, n, fld, atom(k), atom(v)))
 		b.add(fmt.Sprintf("let %s := { %s with %s := %s }", n, n, fld, t))
@@ -1400,6 +1461,16 @@ func (f *fctx) store(b *blk, ix *ast.IndexExpr, rhs ast.Expr) {
 		n := f.nameOf(o)
 		b.add(fmt.Sprintf("let %s ← mapSet %s %s %s", n, n, atom(k), atom(v)))
 		return
+	}
+	if v, ok := o.(*types.Var); ok && !f.views[o] && leanType(v.Type()) == tBytes && v.Parent() != v.Pkg().Scope() {
+		if _, known := f.names[o]; known {
+			// a store into a local slice
+			i := f.expr(b, ix.Index)
+			x := f.exprAs(b, rhs, types.Typ[types.Uint8])
+			n := f.nameOf(o)
+			b.add(fmt.Sprintf("let %s ← vset %s 0 %s %s", n, n, atom(i), atom(x)))
+			return
+		}
 	}
 	if o == nil || !f.views[o] {
 		f.fail(ix, "store into something that is not a written-through parameter")
@@ -1674,10 +1745,12 @@ func (f *fctx) expr(b *blk, e ast.Expr) string {
 		}
 		return f.ident(b, x, o)
 	case *ast.SelectorExpr:
-		// a field of the struct receiver
-		if id, ok := stripParens(x.X).(*ast.Ident); ok && f.fi.recv != nil && info.Uses[id] == types.Object(f.fi.recv) {
-			if sel, ok := info.Selections[x]; ok && sel.Kind() == types.FieldVal {
-				return f.nameOf(f.fi.recv) + "." + x.Sel.Name
+		// a field of the struct receiver, or of a local / result variable of a struct type
+		if id, ok := stripParens(x.X).(*ast.Ident); ok {
+			if o, ok := info.Uses[id].(*types.Var); ok && f.isStructVar(o) {
+				if sel, ok := info.Selections[x]; ok && sel.Kind() == types.FieldVal {
+					return f.nameOf(o) + "." + x.Sel.Name
+				}
 			}
 		}
 		// a package-level error value of another package (io.EOF)
@@ -2050,6 +2123,12 @@ func (f *fctx) callMulti(b *blk, call *ast.CallExpr, n int) []string {
 		case "copy":
 			return []string{f.copyCall(b, call)}
 		case "make":
+			if leanType(info.TypeOf(call)) == tBytes && len(call.Args) == 2 {
+				n := f.expr(b, call.Args[1])
+				t := f.fresh()
+				b.add(fmt.Sprintf("let %s ← makeBytes %s", t, atom(n)))
+				return []string{t}
+			}
 			if lt := leanType(info.TypeOf(call)); (lt == tMapIB || lt == tMapBB) && (len(call.Args) == 1 || (len(call.Args) == 2 && !f.canPanic(call.Args[1]))) {
 				// a size hint only sizes the allocation (a negative hint panics in Go: not modelled, the callers here
 				// pass an int converted from a uint32)
@@ -2126,8 +2205,14 @@ func (f *fctx) callMulti(b *blk, call *ast.CallExpr, n int) []string {
 	}
 	// a method of the bufiox.Reader interface value held by the receiver: the abstract reader `I`
 	if se, ok := stripParens(call.Fun).(*ast.SelectorExpr); ok && f.fi.iface {
-		if inner, ok := stripParens(se.X).(*ast.SelectorExpr); ok {
-			if id, ok := stripParens(inner.X).(*ast.Ident); ok && info.Uses[id] == types.Object(f.fi.recv) {
+		var recvId *ast.Ident
+		if inner, ok := stripParens(se.X).(*ast.SelectorExpr); ok && !f.fi.ifaceParam {
+			recvId, _ = stripParens(inner.X).(*ast.Ident)
+		} else if id, ok := stripParens(se.X).(*ast.Ident); ok && f.fi.ifaceParam {
+			recvId = id
+		}
+		if recvId != nil {
+			if id := recvId; info.Uses[id] == types.Object(f.fi.recv) {
 				rcv := f.nameOf(f.fi.recv)
 				rn := rcv
 				setState := func(v string) string { return fmt.Sprintf("let %s := %s", rcv, v) }
@@ -2521,7 +2606,23 @@ func (t *ftr) translate(fi *fnInfo) {
 	for i := 0; i < sig.Params().Len(); i++ {
 		p := sig.Params().At(i)
 		lt := leanType(p.Type())
+		if nt, ok := p.Type().(*types.Named); ok && nt.Obj().Pkg() != nil && nt.Obj().Pkg().Path() == mod+"bufiox" && nt.Obj().Name() == "Reader" && fi.recv == nil {
+			// a bufiox.Reader parameter: the abstract reader state, in/out, with its behaviour `I`
+			fi.recv, fi.recvMut, fi.iface, fi.ifaceParam = p, true, true, true
+			params = append(params, fmt.Sprintf("(%s : ρ)", f.nameOf(p)))
+			continue
+		}
 		if lt == tBad {
+			used := false
+			ast.Inspect(fi.fd.Body, func(n ast.Node) bool {
+				if id, ok := n.(*ast.Ident); ok && fi.pk.TypesInfo.Uses[id] == types.Object(p) {
+					used = true
+				}
+				return !used
+			})
+			if !used {
+				continue // a parameter the body never mentions (context.Context)
+			}
 			f.fail(fi.fd, "parameter %s of type %s not supported", p.Name(), p.Type())
 		}
 		n := f.nameOf(p)
@@ -2680,6 +2781,9 @@ func (c *ctx) emitFuncs(repo, path string) {
 		out.WriteString(t.tables[n])
 		out.WriteString("\n")
 	}
+	for _, nt := range structLtyType {
+		t.structs[structLeanName(nt)] = nt
+	}
 	snames := make([]string, 0, len(t.structs))
 	for n := range t.structs {
 		snames = append(snames, n)
@@ -2700,9 +2804,16 @@ func (c *ctx) emitFuncs(repo, path string) {
 			out.WriteString("\n")
 			continue
 		}
-		fmt.Fprintf(&out, "/-- %s.%s (fields in declaration order) -/\nstructure %s where\n", nt.Obj().Pkg().Path(), nt.Obj().Name(), n)
+		fmt.Fprintf(&out, "/-- %s.%s (fields in declaration order; the defaults are Go's zero values) -/\nstructure %s where\n", nt.Obj().Pkg().Path(), nt.Obj().Name(), n)
 		for i := 0; i < st.NumFields(); i++ {
-			fmt.Fprintf(&out, "  %s : %s\n", st.Field(i).Name(), strings.Trim(leanType(st.Field(i).Type()).String(), "()"))
+			lt := leanType(st.Field(i).Type())
+			z := lt.zero()
+			if lt == tBytes {
+				z = "[]"
+			} else if lt == tMapIB || lt == tMapBB {
+				z = "none"
+			}
+			fmt.Fprintf(&out, "  %s : %s := %s\n", st.Field(i).Name(), strings.Trim(lt.String(), "()"), z)
 		}
 		out.WriteString("deriving DecidableEq\n\n")
 	}
